@@ -110,13 +110,15 @@ func (valdec mapDecoder) decodeListAsMap(dec *Decoder, p interface{}, tag byte) 
 	}
 	mp := reflect2.PtrOf(p)
 	count := dec.ReadCount()
-	valdec.t.UnsafeSet(mp, valdec.t.UnsafeMakeMap(count))
+	// the count comes from the wire: it is a size hint only up to a few entries (the map grows as the
+	// entries really arrive) and the loop stops at the first error
+	valdec.t.UnsafeSet(mp, valdec.t.UnsafeMakeMap(sizeHint(count)))
 	dec.AddReference(p)
 	kp := valdec.kt.UnsafeNew()
 	vp := valdec.vt.UnsafeNew()
 	vt := valdec.vt.Type1()
 	freshValue := needsFreshStorage(valdec.vt.Kind())
-	for i := 0; i < count; i++ {
+	for i := 0; i < count && dec.Error == nil; i++ {
 		if i > 0 && freshValue {
 			vp = valdec.vt.UnsafeNew()
 		}
@@ -166,7 +168,9 @@ func hashableType(t reflect.Type) bool {
 func (valdec mapDecoder) decodeMap(dec *Decoder, p interface{}) {
 	mp := reflect2.PtrOf(p)
 	count := dec.ReadCount()
-	valdec.t.UnsafeSet(mp, valdec.t.UnsafeMakeMap(count))
+	// the count comes from the wire: it is a size hint only up to a few entries (the map grows as the
+	// entries really arrive) and the loop stops at the first error
+	valdec.t.UnsafeSet(mp, valdec.t.UnsafeMakeMap(sizeHint(count)))
 	dec.AddReference(p)
 	kp := valdec.kt.UnsafeNew()
 	vp := valdec.vt.UnsafeNew()
@@ -174,7 +178,7 @@ func (valdec mapDecoder) decodeMap(dec *Decoder, p interface{}) {
 	vt := valdec.vt.Type1()
 	freshKey := needsFreshStorage(valdec.kt.Kind())
 	freshValue := needsFreshStorage(valdec.vt.Kind())
-	for i := 0; i < count; i++ {
+	for i := 0; i < count && dec.Error == nil; i++ {
 		if i > 0 {
 			if freshKey {
 				kp = valdec.kt.UnsafeNew()
@@ -208,7 +212,7 @@ func (valdec mapDecoder) decodeObjectAsMap(dec *Decoder, p interface{}, tag byte
 	}
 	mp := reflect2.PtrOf(p)
 	count := len(structInfo.names)
-	valdec.t.UnsafeSet(mp, valdec.t.UnsafeMakeMap(count))
+	valdec.t.UnsafeSet(mp, valdec.t.UnsafeMakeMap(sizeHint(count)))
 	dec.AddReference(p)
 	// the key must have the map's key type: for map[interface{}]... the name is boxed (through the
 	// safe reflect API, so that the boxed copy is owned by the map)
@@ -221,6 +225,9 @@ func (valdec mapDecoder) decodeObjectAsMap(dec *Decoder, p interface{}, tag byte
 	}
 	fields := structInfo.fields
 	for _, name := range structInfo.names {
+		if dec.Error != nil {
+			break
+		}
 		var v interface{}
 		if field, ok := fields[name]; ok {
 			vp := field.Type.UnsafeNew()
